@@ -97,6 +97,9 @@ func Generate(profile string, seed uint64, tier string) (*Scenario, error) {
 	case "C12c":
 		sc.Property = "C12"
 		genC12c(g, sc, tier)
+	case "C16":
+		sc.Property = "C16"
+		genC16(g, sc, tier)
 	case "C09":
 		sc.Property = "C09"
 		genC09(g, sc, tier)
@@ -413,6 +416,8 @@ func Execute(sc *Scenario) *Verdict {
 		return RunStoreScenario(sc)
 	case "C09":
 		return RunHTTPScenario(sc)
+	case "C16":
+		return RunSecScenario(sc)
 	case "C08", "C10", "C17", "C18":
 		return RunJobScenario(sc)
 	case "C05", "C02c", "C12c", "C13c", "C19c":
@@ -1236,4 +1241,45 @@ func genC09(g *G, sc *Scenario, tier string) {
 			sc.Ops = append(sc.Ops, advance())
 		}
 	}
+}
+
+var c16Resources = []string{"/datasets/a", "/datasets/a*", "/datasets/*", "/jobs*", "/*", "/datasets/b", "/query"}
+
+func (g *G) aclSet() []any {
+	n := g.Range(0, 3)
+	var l []any
+	for i := 0; i < n; i++ {
+		l = append(l, map[string]any{"Resource": g.Pick(c16Resources), "Action": g.Pick([]string{"read", "write"}), "Deny": g.P(0.25)})
+	}
+	return l
+}
+
+// genC16: an admin registers clients and edits ACLs drawn from a small lattice; requests over
+// every registered (method, route) with every token state; token expiry by clock advance; restarts.
+func genC16(g *G, sc *Scenario, tier string) {
+	sc.Ops = append(sc.Ops, Op{K: "setup"})
+	sc.Ops = append(sc.Ops, Op{K: "acl", DS: "client1", A: g.aclSet()})
+	if g.P(0.5) {
+		sc.Ops = append(sc.Ops, Op{K: "acl", DS: "client2", A: g.aclSet()})
+	}
+	kinds := []string{"client", "client", "client", "client", "client", "none", "admin", "expired", "wrongkey", "wrongiss", "wrongaud", "hs256", "algnone"}
+	n := g.Range(15, 45)
+	for i := 0; i < n; i++ {
+		x := g.r.Float64()
+		switch {
+		case x < 0.06:
+			sc.Ops = append(sc.Ops, Op{K: "acl", DS: g.Pick([]string{"client1", "client1", "client2"}), A: g.aclSet()})
+		case x < 0.09:
+			sc.Ops = append(sc.Ops, Op{K: "acl", DS: g.Pick([]string{"client1", "client2"}), S: "delete"})
+		case x < 0.13:
+			sc.Ops = append(sc.Ops, Op{K: "restart"})
+		case x < 0.17:
+			sc.Ops = append(sc.Ops, Op{K: "advance", N: g.PickInt([]int{60, 600, 1000})})
+		case x < 0.22:
+			sc.Ops = append(sc.Ops, Op{K: "list"})
+		default:
+			sc.Ops = append(sc.Ops, Op{K: "req", N: g.Intn(1000), S: g.Pick(kinds), DS: g.Pick([]string{"a", "a", "ab", "b"})})
+		}
+	}
+	sc.Ops = append(sc.Ops, Op{K: "restart"})
 }
